@@ -347,6 +347,25 @@ ADDED9 = {
 for _pid, _t in ADDED9.items():
     CLAIMED[_pid]["text"] += " Round 9: " + _t
 
+ADDED10 = {
+ "C03": "(T16) fiHalt reaches its exit only through exit(); every backtrace of the interpreter outside bug paths goes to stderr. (T10) hex escapes are read (and reported: no length limit).",
+ "C04": "(B12) cast rows of ccBValInfoTable name a run-time type (Fi...), not a bare C type.",
+ "C05": "(W17) every local passed to bintFree in foam.c holds a value made by a copying or creating call.",
+ "C06": "(S14) a message buffer made with bufNew has been written (or looked at) on every path to the message call that uses it; (S15) the list-implication helpers of ablogic.c are handed the caller's whole list parameter.",
+ "C07": "(K20) no self-recursive function of the compiler keeps an automatic array of more than 512 elements; (K8) an exact-size memcpy fits.",
+ "C08": "(D3) osDirSwap counts as a way to read the working directory (three legitimate callers frozen).",
+ "C11": "(N9) no word computed by a plain assignment is overwritten before it is read, in dword.c, bigint.c, foam_i.c (rules/deadstore.py); (N10) loops bounding a power of the text radix by BINT_RADIX use <, or <= with a constant radix that is not a power of two.",
+ "C12": "(J15) gj0ArrChar emits <literal>.toCharArray(); a helper that looks the array up in a table is a violation.",
+ "C13": "(U9) every store into an intStepNo field (and symeSetIntStepNo) stores the current step or the constant 0.",
+ "C15": "(P12) the condition under which sposNew starts a new run looks at the local line and the run's flno; (P13) after a restore of the reader's state no call is given both line counters before the serial counter has been stepped.",
+ "C16": "(M11) the string handed to fiImportGlobal/fiExportGlobal is not the .symbol of an identifier cut by -Cidlen (two known findings); (M12) every value reaching the base-36 digit loop of gc0IdHashInBuf is computed in the call from strHash of its parameter.",
+ "C18": "(O10) no setvbuf/setbuf in the compiler supplies storage.",
+ "C19": "(L8) every mem*/strn* call with a constant length on a byte array of constant size, in the units that read and write float constants, uses the array's size.",
+ "C20": "(V9) shares rules/lowmask.py with C02-Q16; (V13) no difference of floating or 64-bit key operands is converted to a 32-bit integer; (V14) no stepped pointer is handed to a freeing call.",
+}
+for _pid, _t in ADDED10.items():
+    CLAIMED[_pid]["text"] += " Round 10: " + _t
+
 def main():
     checks = []
     for pid in sorted(CLAIMED):
